@@ -182,6 +182,26 @@ def classify(prog, R, rule, fns, reviewed, skip=lambda s: False, auto=None):
             callers[b_].add(a)
     sites = sites_in(prog, fns)
     n = 0
+    # reviewed sites that are gone from the tree (their function was renamed, merged or split): a new site of the same
+    # kind and description in the same crate takes over such an entry once (the code moved, it did not appear), unless
+    # the entry's reason is tied to the old function's structure (callers / guard / dominating call / grammar fact)
+    present = {f"{rule}:{x['key']}" for x in sites}
+    orphans = [k for k, e in reviewed.items() if k.startswith(rule + ":") and k not in present and not any(e.get(c) for c in ("callers", "guard", "calls_dominated", "after_first", "completes"))]
+
+    def _mid(k):
+        parts = k.split("|")
+        return parts[1] if len(parts) >= 3 else ""
+
+    def _take_orphan(full):
+        crate = full.split(":", 1)[1].split("::")[0]
+        mid = _mid(full)
+        for i, o in enumerate(orphans):
+            if o.split(":", 1)[1].split("::")[0] != crate:
+                continue
+            om = _mid(o)
+            if om == mid or ("<-" in mid and om.split("<-")[0] == mid.split("<-")[0]) or (mid.split(":")[0] in ("debug_assert", "assert", "unreachable", "panic") and om.split(":")[0] == mid.split(":")[0] and om[:34] == mid[:34]):
+                return orphans.pop(i)
+        return None
     for s_ in sites:
         if skip(s_):
             continue
@@ -196,12 +216,28 @@ def classify(prog, R, rule, fns, reviewed, skip=lambda s: False, auto=None):
             R.ob(rule, key, True, s_["at"], "assert condition is a compile-time constant (shift amount / divisor is an evaluated constant within range)")
             continue
         e = reviewed.get(full)
+        moved = None
+        if e is None:
+            moved = _take_orphan(full)
+            if moved is not None:
+                e = dict(reviewed[moved])
+                e["reason"] = f"(site moved here from {moved.split(':', 1)[1].split('|')[0]}, which no longer has it) " + e["reason"]
         if e is None:
             R.ob(rule, key, False, s_["at"], f"new panic-capable site in the cone ({s_['kind']}: {s_['descr']}, callee {s_['callee']}): not discharged by a rule and not in the reviewed table")
             continue
         want = e.get("callers")
         if want is not None:
-            have = sorted(c for c in callers.get(s_["fn"], ()) )
+            # a module-private helper between the reviewed caller and the site stands for its own callers
+            def _expand(cs, depth=0):
+                out_ = set()
+                for c in cs:
+                    cb_ = prog.body(c)
+                    if c in want or depth >= 3 or cb_ is None or not str(cb_.vis).startswith("in ") or not callers.get(c):
+                        out_.add(c)
+                    else:
+                        out_ |= _expand(callers.get(c, ()), depth + 1)
+                return out_
+            have = sorted(_expand(callers.get(s_["fn"], ())))
             if sorted(want) != have:
                 R.ob(rule, key, False, s_["at"], f"reviewed under the call contexts {sorted(want)} but the function is now called from {have}: the reason must be re-confirmed")
                 continue
